@@ -546,34 +546,69 @@ def strip_tuples(shape):
 OUTS = {'Out': 1, 'ReplaceOut': 1, 'OffsetOut': 1, 'XOut': 2, 'LocalOut': 0}
 
 
+def only_zeros(shape):
+    if shape[0] == 'l':
+        return all(only_zeros(s) for s in shape[1])
+    return shape[0] == 'z'
+
+
 def run_out(case, v):
     name = case['cls']
     nfixed = OUTS[name]
-    info = {'zero': False}
+    info = {'zero': False, 'shared': False}
+    # lists of literal numbers only are the caller's own objects: the same
+    # objects are passed again in a second build (a constant "muted pair")
+    keep = {}
 
     def body(sd):
         pool = [U['SinOsc'].ar(101, 0), U['LFNoise0'].ar(103),
                 U['WhiteNoise'].ar(), U['Dust'].ar(104),
                 U['Pan2'].ar(U['Dust'].ar(105), 0, 1)[1]]
 
-        def chans(shape):
+        def chans(shape, path=()):
             if shape[0] == 'l':
-                return [chans(s) for s in shape[1]]
+                if path and only_zeros(shape):
+                    if path in keep:
+                        info['shared'] = True
+                    else:
+                        keep[path] = [chans(s, path + (k,))
+                                      for k, s in enumerate(shape[1])]
+                    return keep[path]
+                return [chans(s, path + (k,))
+                        for k, s in enumerate(shape[1])]
             if shape[0] == 'z':
                 info['zero'] = True
                 return shape[1]
             return pool[shape[1] % len(pool)]
 
+        def plain(x):     # the argument as the caller wrote it
+            return [plain(y) for y in x] if isinstance(x, list) else x
+
+        def pure(shape):
+            # (what the caller's literal lists contain: numbers)
+            if shape[0] == 'l':
+                return [pure(s) for s in shape[1]]
+            return shape[1] if shape[0] == 'z' else None
+
+        def written(shape, val):
+            if shape[0] == 'l':
+                if only_zeros(shape):
+                    return pure(shape)
+                return [written(s, x) for s, x in zip(shape[1], val)]
+            return val
+
         ch = chans(case['chs'])
         fixed = [case['bus']] if nfixed >= 1 else []
         if nfixed == 2:
             fixed.append(0.5)
+        # reference: positions are the fixed args followed by one position
+        # per top-level channel; nested lists expand by the general law
+        # (taken from what the caller wrote, before the call)
+        ref_ch = written(case['chs'], plain(ch))
+        positions = fixed + (ref_ch if isinstance(ref_ch, list) else [ref_ch])
         n0 = len(sd._children)
         getattr(U[name], 'ar')(*fixed, ch)
         created = [u for u in sd._children[n0:] if type(u).__name__ == name]
-        # reference: positions are the fixed args followed by one position
-        # per top-level channel; nested lists expand by the general law
-        positions = fixed + (ch if isinstance(ch, list) else [ch])
         leaves = []
         ref_expand(lambda *a: leaves.append(a), positions)
         if len(created) != len(leaves):
@@ -592,6 +627,7 @@ def run_out(case, v):
                     src = getattr(g, 'source_ugen', g)
                     ok = (isinstance(g, ugn.SynthObject) and g.rate == 'audio'
                           and type(src).__name__ == 'DC'
+                          and src._synthdef is sd
                           and len(src.inputs) == 1
                           and isinstance(src.inputs[0], (int, float))
                           and src.inputs[0] == 0)
@@ -605,9 +641,12 @@ def run_out(case, v):
                            f'{describe(e)}')
 
     in_build(body)
+    if keep and not v.items:
+        in_build(body)      # the same literal lists in another definition
     d = depth(case['chs'])
     return {'nontrivial': info['zero'] and d >= 1,
-            'labels': [name, f'depth_{d}'] + (['zero'] if info['zero'] else [])}
+            'labels': [name, f'depth_{d}'] + (['zero'] if info['zero'] else [])
+            + (['literal_list_reused'] if info['shared'] else [])}
 
 
 def out_cases():
